@@ -18,6 +18,10 @@ for d in sorted(glob.glob(os.path.join(ROOT, 'seeded', '*'))):
         continue
     if '--new-rounds' in sys.argv and not ('-r3-' in sid or '-r4-' in sid or '-r5-' in sid):
         continue
+    if '--only-k2' in sys.argv and not sid.endswith('-2'):
+        continue
+    if '--skip-r7' in sys.argv and '-r7-' in sid:
+        continue
     if '--half-a' in sys.argv and int(sid[1:3]) > 9:
         continue
     if '--half-b' in sys.argv and int(sid[1:3]) <= 9:
